@@ -22,36 +22,37 @@ import (
 )
 
 type request struct {
-	K      string          `json:"k"`
-	Fn     string          `json:"fn"`
-	Args   []string        `json:"args"`
-	Ints   []int           `json:"ints"`
-	Type   string          `json:"type"`
-	Order  int             `json:"order"`
-	Vars   []string        `json:"vars"`
-	Prog   []instr         `json:"prog"`
-	Family string          `json:"family"`
-	Params []string        `json:"params"`
-	Op     string          `json:"op"`
-	X      []string        `json:"x"`
-	Raw    json.RawMessage `json:"raw"`
-	Other  []string        `json:"other"`
-	Prior  bool            `json:"prior"` // the variables hold derivatives of an earlier computation when activated
+	K          string          `json:"k"`
+	Fn         string          `json:"fn"`
+	Args       []string        `json:"args"`
+	Ints       []int           `json:"ints"`
+	Type       string          `json:"type"`
+	Order      int             `json:"order"`
+	Vars       []string        `json:"vars"`
+	Prog       []instr         `json:"prog"`
+	Family     string          `json:"family"`
+	Params     []string        `json:"params"`
+	Op         string          `json:"op"`
+	X          []string        `json:"x"`
+	Raw        json.RawMessage `json:"raw"`
+	Other      []string        `json:"other"`
+	Prior      bool            `json:"prior"`       // the variables hold derivatives of an earlier computation when activated
+	PriorOrder int             `json:"prior_order"` // derivative order of that earlier computation (0: the same)
 }
 
 type instr struct {
-	Op   string   `json:"op"`
-	Dst  int      `json:"dst"`  // register written (receiver)
-	A    int      `json:"a"`    // operand registers; -1: unused
-	B    int      `json:"b"`
-	C    int      `json:"c"`
-	KA   string   `json:"ka"`   // operand kinds: "reg", "const" (ConstFloat64), "plain" (Float64 scalar)
-	KB   string   `json:"kb"`
-	VA   string   `json:"va"`   // constant values (hex)
-	VB   string   `json:"vb"`
-	Vec  []int    `json:"vec"`  // registers forming a vector operand (reductions)
-	Vec2 []int    `json:"vec2"`
-	CC   bool     `json:"cc"`   // use the concrete variant (ADD, MUL, ...) of the operation
+	Op   string `json:"op"`
+	Dst  int    `json:"dst"` // register written (receiver)
+	A    int    `json:"a"`   // operand registers; -1: unused
+	B    int    `json:"b"`
+	C    int    `json:"c"`
+	KA   string `json:"ka"` // operand kinds: "reg", "const" (ConstFloat64), "plain" (Float64 scalar)
+	KB   string `json:"kb"`
+	VA   string `json:"va"` // constant values (hex)
+	VB   string `json:"vb"`
+	Vec  []int  `json:"vec"` // registers forming a vector operand (reductions)
+	Vec2 []int  `json:"vec2"`
+	CC   bool   `json:"cc"` // use the concrete variant (ADD, MUL, ...) of the operation
 }
 
 func hex(x float64) string {
@@ -248,7 +249,9 @@ func evalProgram(t ScalarType, prog []instr, vars []ConstScalar) (ConstScalar, m
 		case "BesselI":
 			r.BesselI(unhex(in.VB), a)
 		case "LogBesselI":
-			r.(interface{ LogBesselI(float64, ConstScalar) Scalar }).LogBesselI(unhex(in.VB), a)
+			r.(interface {
+				LogBesselI(float64, ConstScalar) Scalar
+			}).LogBesselI(unhex(in.VB), a)
 		case "Set":
 			r.Set(a)
 		case "Neg":
@@ -351,12 +354,16 @@ func doExpr(req request) map[string]interface{} {
 	if req.Prior {
 		// an in-place update x <- x*o (o = 1 with a derivative of its own) as an optimiser would do
 		// it leaves derivatives in x; the value is unchanged
+		po := req.PriorOrder
+		if po == 0 {
+			po = req.Order
+		}
 		for i := range vars {
 			o := NewScalar(t, 1.0).(MagicScalar)
-			if err := o.SetVariable((i+1)%n, n, req.Order); err != nil {
+			if err := o.SetVariable((i+1)%n, n, po); err != nil {
 				return map[string]interface{}{"err": err.Error()}
 			}
-			if err := vars[i].SetVariable(i, n, req.Order); err != nil {
+			if err := vars[i].SetVariable(i, n, po); err != nil {
 				return map[string]interface{}{"err": err.Error()}
 			}
 			vars[i].Mul(vars[i], o)
@@ -703,13 +710,17 @@ func doDist(req request) map[string]interface{} {
 		case "logpdf":
 			err = d.LogPdf(r, ConstFloat64(x))
 		case "pdf":
-			if q, ok := d.(interface{ Pdf(Scalar, ConstScalar) error }); ok {
+			if q, ok := d.(interface {
+				Pdf(Scalar, ConstScalar) error
+			}); ok {
 				err = q.Pdf(r, ConstFloat64(x))
 			} else {
 				return map[string]interface{}{"unsupported": "pdf"}
 			}
 		case "cdf":
-			if q, ok := d.(interface{ Cdf(Scalar, ConstScalar) error }); ok {
+			if q, ok := d.(interface {
+				Cdf(Scalar, ConstScalar) error
+			}); ok {
 				err = q.Cdf(r, ConstFloat64(x))
 			} else if q, ok := d.(interface{ Cdf(Scalar, Vector) error }); ok {
 				err = q.Cdf(r, NewDenseFloat64Vector([]float64{x}))
@@ -717,7 +728,9 @@ func doDist(req request) map[string]interface{} {
 				return map[string]interface{}{"unsupported": "cdf"}
 			}
 		case "logcdf":
-			if q, ok := d.(interface{ LogCdf(Scalar, ConstScalar) error }); ok {
+			if q, ok := d.(interface {
+				LogCdf(Scalar, ConstScalar) error
+			}); ok {
 				err = q.LogCdf(r, ConstFloat64(x))
 			} else if q, ok := d.(interface{ LogCdf(Scalar, Vector) error }); ok {
 				err = q.LogCdf(r, NewDenseFloat64Vector([]float64{x}))
